@@ -256,22 +256,23 @@ class RaggedArray(IndexableArray, np.lib.mixins.NDArrayOperatorsMixin):
             -1,
         ), "Reductions on ragged arrays are only supported for the last axis"
 
+        identity = None if ufunc.identity is None else ufunc.reduce(self.ravel()[:0], **kwargs)
         if self.size == 0:
-            result = np.full(len(ra), fill_value=ufunc.identity)
+            result = np.full(len(ra), fill_value=identity)
         else:
             # if one or more of the last rows are empty,
             # ignore these when doing reduceat and pad in the end
             if self._shape.lengths[-1] == 0:
                 first_last_empty_row = np.searchsorted(self._shape.starts, self._shape.starts[-1], side='left')
                 result = ufunc.reduceat(self.ravel(), self._shape.starts[:first_last_empty_row])
-                result = np.pad(result, (0, len(self._shape.starts)-first_last_empty_row), constant_values=0 if ufunc.identity is None else ufunc.identity)
+                result = np.pad(result, (0, len(self._shape.starts)-first_last_empty_row), constant_values=0 if identity is None else identity)
             else:
                 result = ufunc.reduceat(self.ravel(), self._shape.starts)
 
         # hack to fix problem that reduceat does not give identity when index i == index i+1 (empty rows)
         # not necessary when ufunc does not have identity
-        if ufunc.identity is not None:
-            result[ra._shape.lengths == 0] = ufunc.identity
+        if identity is not None:
+            result[ra._shape.lengths == 0] = identity
 
         return result
 
